@@ -2,6 +2,7 @@ package rules
 
 import (
 	"fmt"
+	"go/types"
 	"sort"
 	"strings"
 
@@ -149,6 +150,36 @@ func SkipRows(fn *ssa.Function) []string {
 		case !w1 && e1 && w0:
 			out = append(out, kind+" when "+CondText(ifi.Cond, false))
 		}
+	}
+	// locals that live in memory (structs, arrays, captured variables) and the loop depth they are declared at:
+	// a declaration hoisted out of a loop keeps the value of the previous iteration
+	for _, b := range fn.Blocks {
+		for _, in := range b.Instrs {
+			al, ok := in.(*ssa.Alloc)
+			if !ok || al.Comment == "" || al.Comment == "varargs" || al.Comment == "complit" || al.Comment == "slicelit" || al.Comment == "makeslice" {
+				continue
+			}
+			depth := 0
+			for _, l := range loops {
+				if l.Blocks[b] {
+					depth++
+				}
+			}
+			out = append(out, fmt.Sprintf("local %s declared at loop depth %d", shortType(al.Type().(*types.Pointer).Elem()), depth))
+		}
+	}
+	// every branch condition of the function, in a polarity-independent form (the smaller of the two
+	// renderings): conditions that only select a value (no effect on either edge) are visible here
+	for _, b := range fn.Blocks {
+		ifi, ok := b.Instrs[len(b.Instrs)-1].(*ssa.If)
+		if !ok {
+			continue
+		}
+		p, n := CondText(ifi.Cond, true), CondText(ifi.Cond, false)
+		if n < p {
+			p = n
+		}
+		out = append(out, "cond: "+clip(p, 200))
 	}
 	// what the function returns, and when (comparators, predicates, error exits, looked-up values)
 	if fn.Signature.Results().Len() > 0 {
@@ -361,10 +392,14 @@ var skipGroups = []skipGroup{
 	{"skips-queue", []string{"C13", "C12"}, []string{"utils/workqueue", "utils"}, "the work queue and its rate limiters"},
 }
 
+var allProps = []string{"C01", "C02", "C03", "C04", "C05", "C06", "C07", "C08", "C09", "C10", "C11", "C12", "C13", "C14", "C15", "C16", "C17", "C18", "C19"}
+
 func init() {
 	for _, g := range skipGroups {
 		g := g
-		for _, p := range g.props {
+		// every group is registered under every property: what is compared is decided by the anchored
+		// scope (the functions the property's own rules are about and their callees), not by this list
+		for _, p := range allProps {
 			addRule(p, &core.Rule{ID: p + "." + g.suffix, Floor: 1, Late: true, Run: func(c *core.Ctx) { skipTableRule(c, g) },
 				Doc: "Skip table of " + g.what + ": for every function, (a) the conditions under which a branch ends the function or the current loop iteration without any effect while its other edge leads to effects (`continue`, early `return`, the implicit else of a trailing `if`), (b) the returns that can be reached before a `defer` was registered, and (c) the effects (calls, stores) that every completed iteration of a loop performs, equal the table generated from the reviewed tree (rules/skips_gen.go). An added shortcut (`if len(x) == 0 { continue }`, `if !changed { return }`), a cleanup registered one statement too late, or a statement moved behind a `continue` changes exactly these rows."})
 		}
@@ -445,4 +480,35 @@ func skipTableRule(c *core.Ctx, g skipGroup) {
 			"rows that disappeared: ["+clip(strings.Join(missing, " ; "), 500)+"]; new rows: ["+clip(strings.Join(extra, " ; "), 500)+"] — an element, an iteration or an exit now bypasses (or no longer bypasses) the work of the function")
 	}
 	c.Check(n >= 1 || !home, "functions compared with the skip table ("+g.suffix+")", "", fmt.Sprintf("%d functions", n), fmt.Sprintf("%d functions", n))
+}
+
+
+// ---------------------------------------------------------------------------------------------
+// Reviewed anchors: functions that implement a property although no hand-written rule of it needs to
+// look inside them. Touching them puts them (and what they call) into the scope of the tables.
+// ---------------------------------------------------------------------------------------------
+
+var anchorTable = map[string][][2]string{
+	"C08": {{"controller/config", "CreateWithConfig"}, {"controller/config", "Options.AddFlags"}},
+	"C09": {{"controller/config", "CreateWithConfig"}, {"controller/config", "Options.AddFlags"}},
+	"C12": {{"controller/config", "CreateWithConfig"}, {"controller/config", "Options.AddFlags"}},
+	"C13": {{"controller/config", "CreateWithConfig"}, {"controller/config", "Options.AddFlags"}},
+	"C17": {{"controller/config", "CreateWithConfig"}, {"controller/config", "Options.AddFlags"}},
+	"C19": {{"controller/config", "CreateWithConfig"}, {"controller/config", "Options.AddFlags"}},
+	"C03": {{"controller/config", "CreateWithConfig"}},
+	"C11": {{"controller/config", "CreateWithConfig"}},
+	"C10": {{"controller/config", "CreateWithConfig"}},
+}
+
+func init() {
+	for _, p := range sortedKeys(anchorTable) {
+		p := p
+		addRule(p, &core.Rule{ID: p + ".anchors", Floor: 1, Run: func(c *core.Ctx) {
+			for _, a := range anchorTable[p] {
+				if fn := c.Fn(a[0], a[1]); fn != nil {
+					c.Held("anchor "+a[0]+"."+a[1], c.Pos(fn.Pos()), "in the scope of the generated tables of this property")
+				}
+			}
+		}, Doc: "Reviewed anchors: the command-line options this property is stated over are bound (Options.AddFlags) and translated into the configuration of the cache, the converters and the instance (CreateWithConfig) in functions no other rule of the property inspects; listing them here puts them and their callees into the scope of the generated tables."})
+	}
 }
